@@ -13,12 +13,13 @@ package zitiql
 // Errors are listened to (C10): the caller's listener is registered on the lexer and on the parser
 // before parsing starts, so text that is not a sentence of the grammar is reported, not repaired.
 //@ func parse
-//@   props C10
+//@   props C10 C18
 //@   nosafety
 //@   requires el != nil
 //@   modifies *
 //@   lensures[lexer-listens] lsn[old(lexer.BaseLexer.BaseRecognizer)][el]
 //@   lensures[parser-listens] lsn[old(p.BaseParser.BaseRecognizer)][el]
+//@   ensures[pooled-instances-returned] forall(x, poolOut[x] == old(poolOut[x]))
 
 //@ func newErrorListener
 //@   props C10
